@@ -1,7 +1,7 @@
 (* Corr/C07.v -- correspondence runner for C07.  A case carries the flat stream F the passes saw,
    the implementation's AST after each of the four passes (run one by one on F), and the AST the
    default decompilation produced; [model_of] recomputes each of them with the model. *)
-From TV Require Import Base.I32 Model.Ops Model.Structure Gen.StructTable.
+From TV Require Import Base.I32 Model.Structure Gen.StructTable.
 Open Scope nat_scope.
 
 Inductive c07case :=
